@@ -215,6 +215,55 @@ def h_after_cleanup(ctx, sub_first, sub_after):
     ctx.holds("remove_entry then report: no result", v.remove_entry(rid) == True and v.add_tm(mk_report(ctx, 3, tc, "gone")[0]) is None)  # noqa: E712
 
 
+def h_received_reports(ctx, sub_a, sub_b, order):
+    """reports as a ground station gets them: octets, decoded with Service1Tm.unpack - several of them decoded before the
+    first one is handed to the tracker. Each updates the telecommand its own octets name."""
+    tc_a, tc_b = mk_tc(), mk_tc(apid=0x23, sc=9)
+    v = PusVerificator()
+    v.add_tc(tc_a)
+    v.add_tc(tc_b)
+    rid_a, rid_b = RequestId.from_pus_tc(tc_a), RequestId.from_pus_tc(tc_b)
+    raw_a = bytes(items_of(mk_report(ctx, sub_a, tc_a, "a")[0].pack())) if not ctx.symbolic else mk_report(ctx, sub_a, tc_a, "a")[0].pack()
+    raw_b = mk_report(ctx, sub_b, tc_b, "b")[0].pack()
+    rep_a = Service1Tm.unpack(raw_a, UnpackParams(0, 1, 1))
+    rep_b = Service1Tm.unpack(raw_b, UnpackParams(0, 1, 1))
+    first, second = ((rep_a, rid_a), (rep_b, rid_b)) if order == "ab" else ((rep_b, rid_b), (rep_a, rid_a))
+    res = v.add_tm(first[0])
+    st1, st2 = v.verif_dict[first[1]], v.verif_dict[second[1]]
+    ctx.holds("a decoded report updates the telecommand it names, whatever was decoded after it",
+              res is not None and res.status is st1 and sym_not(sym_and(st1.accepted == -1, st1.started == -1, st1.step == -1, st1.completed == -1)))
+    ctx.holds("...and leaves the other telecommand's entry alone", sym_and(st2.accepted == -1, st2.started == -1, st2.step == -1, st2.completed == -1,
+                                                                          st2.all_verifs_recvd == False, len(st2.step_list) == 0))  # noqa: E712
+    res2 = v.add_tm(second[0])
+    ctx.holds("the second decoded report updates its own telecommand",
+              res2 is not None and res2.status is st2 and sym_not(sym_and(st2.accepted == -1, st2.started == -1, st2.step == -1, st2.completed == -1)))
+
+
+def h_header_bits(ctx, sub, sf, shf):
+    """the request id is the first four octets of the telecommand as sent - including sequence flags and secondary-header flag
+    other than the defaults. The tracker finds the entry for a report carrying exactly those octets."""
+    from spacepackets.ccsds.spacepacket import SequenceFlags
+    tc = mk_tc()
+    tc.sp_header.seq_flags = SequenceFlags(sf)      # concrete: the dictionary hashes the request id
+    tc.sp_header.sec_header_flag = (shf != 0)
+    v = PusVerificator()
+    ctx.holds("telecommand accepted", v.add_tc(tc) == True)  # noqa: E712
+    sent = tc.pack()
+    rid = RequestId.unpack(sent[:4])        # what the spacecraft copies into its reports
+    ctx.holds("the request id of the telecommand as sent is tracked", rid in v.verif_dict and len(v.verif_dict) == 1)
+    step = PacketFieldEnum.with_byte_size(1, ctx.int("step", 0, 255)) if sub in (5, 6) else None
+    fn = FailureNotice(PacketFieldEnum.with_byte_size(1, ctx.int("code", 0, 255)), b"") if sub in (2, 4, 6, 8) else None
+    report = Service1Tm.unpack(Service1Tm(0x10, sub, b"", VerificationParams(rid, step, fn)).pack(), UnpackParams(0, 1, 1))
+    res = v.add_tm(report)
+    ctx.holds("a report carrying those four octets finds the entry", res is not None and res.status is v.verif_dict[rid])
+    ctx.holds("a duplicate of that telecommand is refused", v.add_tc(tc) == False)  # noqa: E712
+    default = mk_tc()
+    same = (sf == 3 and shf != 0)
+    r2 = v.add_tc(default)
+    ctx.holds("a telecommand with the default header bits is a duplicate exactly when the bits are the same", r2 == (not same))
+    ctx.holds("remove_entry finds it", v.remove_entry(rid) == True)  # noqa: E712
+
+
 def h_remove_completed(ctx):
     tcs = [mk_tc(), mk_tc(apid=0x23), mk_tc(sc=8)]
     v = PusVerificator()
@@ -251,5 +300,14 @@ def cases(tier):
         for sub_after in tier_pick(tier, (1, 7), tuple(range(1, 9))):
             cs.append(Case("cleanup-%d-then-%d" % (sub_first, sub_after), "remove", h_after_cleanup, dict(sub_first=sub_first, sub_after=sub_after),
                            bounds="finish with subservice %d, remove completed, then report %d for the same request id" % (sub_first, sub_after)))
+    for sub_a, sub_b in tier_pick(tier, ((1, 3), (5, 6), (2, 7)), tuple((a, b2) for a in range(1, 9) for b2 in (1, 4, 6, 7))):
+        for order in ("ab", "ba"):
+            cs.append(Case("received-%d-%d-%s" % (sub_a, sub_b, order), "history", h_received_reports, dict(sub_a=sub_a, sub_b=sub_b, order=order),
+                           bounds="two telecommands, reports %d / %d decoded from octets before either is fed, fed in order %s" % (sub_a, sub_b, order)))
+    for sub in tier_pick(tier, (1, 6, 7), tuple(range(1, 9))):
+        for sf in range(4):
+            for shf in (0, 1):
+                cs.append(Case("header-bits-s%d-sf%d-shf%d" % (sub, sf, shf), "isolation", h_header_bits, dict(sub=sub, sf=sf, shf=shf),
+                               bounds="telecommand with sequence flags %d, secondary-header flag %d; report subservice %d, all step/code values" % (sf, shf, sub)))
     cs.append(Case("remove-completed", "remove", h_remove_completed, {}, bounds="three entries, all 2^3 finished-flag assignments"))
     return cs
